@@ -278,6 +278,14 @@ func (p c16) Run(w *mon.Worker, idx int) mon.Result {
 		// the source of the copy loses an element afterwards: the copy's nodes still sit where they sat
 		full = ".x = (.y | " + expr + ") | del(.y[" + fmt.Sprint(r.IntN(len(doc.A))) + "]) | .x"
 		res.Tags = append(res.Tags, "copy_then_delete_from_source")
+	} else if !writeBack && !pair && f.seq && expr == "." && r.IntN(4) == 0 {
+		// one value (built by the expression: it belongs to no document yet) assigned to two places: each place holds
+		// nodes of its own, which say where THEY are
+		input = ref.MapV(ref.KV{K: "y", V: doc}, ref.KV{K: "keep", V: ref.IntV(1)})
+		full = []string{"[.y[]] as $v | .p = $v | .q = $v | .p", "(.y | map(.)) as $v | .p = $v | .q = $v | .p", "[.y[]] as $v | .p = $v | .q = $v | .q", "{\"w\": [.y[]]} as $v | .p = $v.w | .q = $v.w | .p"}[r.IntN(4)]
+		prefix = []any{full[len(full)-1:]}
+		writeBack = true
+		res.Tags = append(res.Tags, "one_value_two_places")
 	} else if !writeBack && !pair && f.seq && expr == "." && r.IntN(3) == 0 {
 		// an element is deleted: the elements behind it move up, and say so with keys of the same type as before
 		input = ref.MapV(ref.KV{K: "y", V: doc}, ref.KV{K: "keep", V: ref.IntV(1)})
@@ -374,6 +382,24 @@ func (p c16) Run(w *mon.Worker, idx int) mon.Result {
 			err = fmt.Errorf("not exactly one result")
 		}
 		return v, err
+	}
+	if rawText != "" && rawFmt == "yaml" {
+		// maps with merge keys, before and after explode: `keys` and `to_entries` list the same keys in the same order
+		for _, pre := range []string{".", full} {
+			out, e0, p0 := yqx.Eval(pre+` | [.. | select(kind == "map") | [keys, [to_entries | .[] | .key]]]`, rawText, "yaml", "json")
+			res.Evals++
+			if e0 != nil || p0 != nil {
+				continue
+			}
+			if prs, pe := ref.ParseJSONStream(out); pe == nil && len(prs) == 1 {
+				for _, pr := range prs[0].A {
+					if len(pr.A) == 2 && !ref.EqualNum(pr.A[0], pr.A[1]) {
+						return fail("enumeration: on `%s`, `keys` lists %s where `to_entries` lists %s\n%s", pre, pr.A[0], pr.A[1], rawText)
+					}
+				}
+				res.Tags = append(res.Tags, "keys_vs_entries_merge")
+			}
+		}
 	}
 	vals, e1 := q("[..]")
 	paths, e2 := q("[.. | path]")
